@@ -1,5 +1,4 @@
 from __future__ import annotations
-import copy
 from .service_access_point import DENRequest, PriorityLevel
 from ...facilities.decentralized_environmental_notification_service.den_service import (
     DecentralizedEnvironmentalNotificationService,
@@ -53,7 +52,12 @@ class EmergencyVehicleApproachingService:
         self.priority_level = PriorityLevel.WARNING
         # Get DENM data to simulate the hazard detection
         self.detection_time = TimeService.timestamp_its()
-        self.event_position = {
+        self.event_position = self._unavailable_event_position()
+
+    @staticmethod
+    def _unavailable_event_position() -> dict:
+        """Event position whose every component carries its ``unavailable`` code."""
+        return {
             "latitude": 900000001,
             "longitude": 1800000001,
             "positionConfidenceEllipse": {
@@ -78,8 +82,10 @@ class EmergencyVehicleApproachingService:
                 - "altHAE" : Altitude in meters above the WGS-84 ellipsoid.
         """
         # Requests already handed to the DEN service keep a reference to the event position they
-        # were created with: update a fresh copy so that running repetitions are not relocated.
-        self.event_position = copy.deepcopy(self.event_position)
+        # were created with: fill a fresh one so that running repetitions are not relocated.
+        # Components the report does not carry are unavailable; they must not keep the value of
+        # an earlier report (the position would mix two measurements).
+        self.event_position = self._unavailable_event_position()
         if "lat" in tpv.keys():
             self.event_position["latitude"] = int(tpv["lat"] * 10000000)
         if "lon" in tpv.keys():
